@@ -20,7 +20,8 @@ const header = "From GL Require Import Common.Bytes Table.TImpl Table.TSpec Tabl
 const defaultMai = 67108864
 
 type Cmp struct {
-	Kind string `json:"kind"` // default nil lt gt lt_truthy gt_truthy mod const bits failat meta metalt (B: descending)
+	Kind string `json:"kind"` // default nil lt gt lt_truthy gt_truthy mod const bits failat yieldat meta metalt (B: descending)
+	// failat: M = what is raised (0 a string, 1 a table, 2 nil); yieldat: the K-th call calls coroutine.yield
 	M    int64  `json:"m,omitempty"`
 	B    bool   `json:"b,omitempty"`
 	Bits []bool `json:"bits,omitempty"`
@@ -39,7 +40,7 @@ type Step struct {
 	JHuge  bool   `json:"jhuge,omitempty"`  // unpack: j = math.huge
 	Cmp    *Cmp   `json:"cmp,omitempty"`
 	Nest   *Nest  `json:"nest,omitempty"` // sort: what the comparator does besides answering
-	Co     bool   `json:"co,omitempty"`   // sort: table.sort runs inside a coroutine started for it
+	Co     bool   `json:"co,omitempty"`   // the library call of this step runs inside a coroutine started for it
 	Act    string `json:"act,omitempty"`  // sortmut: remove (default) | sortself | insert
 }
 
@@ -90,6 +91,7 @@ function c_gt(a,b) return a > b end
 function c_lt_truthy(a,b) if a < b then return 0 else return nil end end
 function c_gt_truthy(a,b) if a > b then return "yes" else return false end end
 function c_mod(m) return function(a,b) return a % m < b % m end end
+function c_yieldat(k) local n = 0 return function(a,b) n = n + 1 if n == k then coroutine.yield(n) end return a < b end end
 function h_co(f, ...) return coroutine.wrap(function(...) return f(...) end)(...) end
 `
 
@@ -105,6 +107,7 @@ type runner struct {
 	nsort  int
 	nmut   int
 	inner  []*sortRec
+	co     bool // the current step's library call runs inside a coroutine of its own
 }
 
 var theL, theL2 *lua.LState
@@ -154,7 +157,15 @@ func (r *runner) callG(fn string, args ...lua.LValue) ([]lua.LValue, error) {
 	return r.callF(r.L.GetGlobal(fn), args...)
 }
 func (r *runner) callT(fn string, args ...lua.LValue) ([]lua.LValue, error) {
-	return r.callF(r.L.GetField(r.L.GetGlobal("table"), fn), args...)
+	return r.callCo(r.L.GetField(r.L.GetGlobal("table"), fn), args...)
+}
+
+// callCo: f(args...), inside a coroutine created for the call when the step asks for it
+func (r *runner) callCo(f lua.LValue, args ...lua.LValue) ([]lua.LValue, error) {
+	if r.co {
+		return r.callG("h_co", append([]lua.LValue{f}, args...)...)
+	}
+	return r.callF(f, args...)
 }
 
 func (r *runner) failf(f string, a ...any) {
@@ -222,7 +233,7 @@ func (c *Cmp) coq() string {
 			it[i] = lib.CoqBool(b)
 		}
 		return "(CBits " + lib.CoqList(it) + ")"
-	case "failat":
+	case "failat", "yieldat":
 		return "(CFailAt " + lib.CoqZ(c.K) + ")"
 	}
 	return "CDefault"
@@ -252,6 +263,8 @@ func (r *runner) exec(s *Step) {
 	t := r.t
 	var obs any
 	var coq string
+	r.co = s.Co
+	defer func() { r.co = false }()
 	switch s.Op {
 	case "ins2":
 		if _, err := r.callT("insert", t, r.pool.L(*s.V)); err != nil {
@@ -414,7 +427,7 @@ func (r *runner) exec(s *Step) {
 			args = append(args[:2:2], lua.LNumber(math.Inf(1)))
 			s.J = zp(math.MinInt64)
 		}
-		res, err := r.callG("unpack", args...)
+		res, err := r.callCo(r.L.GetGlobal("unpack"), args...)
 		if err != nil {
 			r.failf("unpack raised: %v", err)
 		}
@@ -478,12 +491,7 @@ func (r *runner) exec(s *Step) {
 		default:
 			args = append(args, rec)
 		}
-		var err error
-		if s.Co {
-			_, err = r.callG("h_co", append([]lua.LValue{sortfn}, args...)...)
-		} else {
-			_, err = r.callF(sortfn, args...)
-		}
+		_, err := r.callCo(sortfn, args...)
 		if c.Kind == "meta" || c.Kind == "metalt" {
 			for _, o := range r.pool.Objs {
 				r.L.SetMetatable(o, lua.LNil)
@@ -530,6 +538,7 @@ func coqCalls(calls []call) string {
 func (r *runner) cmpFn(L0 *lua.LState, c *Cmp, nest *Nest, calls *[]call, depth int) *lua.LFunction {
 	ncall := int64(0)
 	nact := 0
+	var yielder lua.LValue
 	return L0.NewFunction(func(L *lua.LState) int {
 		a, b := L.Get(1), L.Get(2)
 		*calls = append(*calls, call{r.of(a), r.of(b)})
@@ -552,9 +561,29 @@ func (r *runner) cmpFn(L0 *lua.LState, c *Cmp, nest *Nest, calls *[]call, depth 
 			L.Push(lua.LBool(v))
 		case "failat":
 			if k+1 == c.K {
+				switch c.M {
+				case 1:
+					L.Error(L.NewTable(), 1)
+				case 2:
+					L.Error(lua.LNil, 1)
+				}
 				L.RaiseError("comparator failure")
 			}
 			L.Push(lua.LBool(lessOrRaise(L, a, b)))
+		case "yieldat":
+			// a Lua comparator that calls coroutine.yield at its K-th call: table.sort cannot be
+			// suspended, the yield is an error (whether or not the sort runs inside a coroutine)
+			if yielder == nil {
+				L.Push(L.GetGlobal("c_yieldat"))
+				L.Push(lua.LNumber(c.K))
+				L.Call(1, 1)
+				yielder = L.Get(-1)
+				L.Pop(1)
+			}
+			L.Push(yielder)
+			L.Push(a)
+			L.Push(b)
+			L.Call(2, 1)
 		case "meta", "metalt":
 			// __lt of two pool objects: by identity number
 			va, vb := r.of(a), r.of(b)
@@ -605,7 +634,7 @@ func (r *runner) nestedSort(L *lua.LState, act *NestAct, depth int) {
 	}
 	rec := &sortRec{List: act.List, Cmp: act.Cmp}
 	var nest *Nest
-	if depth < 2 {
+	if depth < 4 {
 		nest = act.Nest
 	}
 	sortfn := LL.GetField(LL.GetGlobal("table"), "sort")
@@ -730,7 +759,9 @@ func main() {
 	}
 	w.Meta.Rule = "one case = one history of table.insert (2/3 args), table.remove (1/2 args), t[i]=v, table.concat, unpack, table.getn/maxn, # and table.sort " +
 		"(comparators: none, <, >, a%m<b%m, constant, scripted answers, failing at the k-th call) called as Lua functions on one table, positions drawn around #t, " +
-		"with rawget(t,1..#t+1) read back after every mutation; list and sort histories, trailing holes by t[#t]=nil, a few steps outside the property's domain (then only the implementation model is compared); " +
+		"with rawget(t,1..#t+1) read back after every mutation; sorts also ordered through an __lt metamethod, run inside a coroutine, with comparators that yield or raise non-string errors, " +
+		"and re-entered from their own comparator/__lt (nested table.sort on another list: same thread, under pcall, in a coroutine, in a second Lua state, up to four levels; every nested sort is a checked LSortAt step); " +
+		"long lists (40-400 elements) sorted, re-sorted and sorted in reverse; any library call may run inside a coroutine of its own; list and sort histories, trailing holes by t[#t]=nil, a few steps outside the property's domain (then only the implementation model is compared); " +
 		"non-trivial = at least 5 mutations or at least one sort; distinct by Gallina term"
 	r := lib.NewRand(a.Seed)
 	if a.Replay != "" {
